@@ -15,7 +15,9 @@ ID = "C15"
 LEVEL = "exploration"
 RULE = (
     "Polyploid G-genome data: ploidy 2-4 (quick) / 2-6 (thorough), bi- and multi-allelic SNVs, 1-2 samples, collapsed "
-    "(identical) haplotype copies, uneven coverage and coverage gaps, reads with 0-5% errors, block-cut sensitivity -B 0..5, "
+    "(identical) haplotype copies, 1-3 contigs (optionally sharing coordinates; optionally a last contig on which a sample has <= 1 "
+    "heterozygous variant or no reads), VCF genotypes that disagree with the reads (one allele copy replaced, also by an allele the "
+    "reads never show), uneven coverage and coverage gaps, reads with 0-5% errors, block-cut sensitivity -B 0..5, "
     "--threads 1/2, --only-snvs, hostile extra records (multi-ALT, symbolic, duplicate positions) and pre-existing phase in the "
     "input; run through whatshap.cli.polyphase.run_polyphase with phase_single_individual interposed. Monitors: genotype "
     "conformance (own text parser: phased allele multiset == input multiset, only heterozygous calls phased), passthrough differ "
@@ -63,7 +65,8 @@ def run_one(rng, counters, tier):
     tmp = tempfile.mkdtemp(prefix="c15-", dir=os.environ.get("WV_SCRATCH"))
     try:
         P = rng.choice([2, 3, 3, 4, 4] if tier == "quick" else [2, 3, 4, 4, 5, 6])
-        p = {"ploidy": P, "n_chrom": rng.choice([1, 1, 2]), "chrom_len": rng.choice([2000, 3000]), "n_var": rng.randint(5, 22 if P <= 4 else 12),
+        p = {"ploidy": P, "n_chrom": rng.choice([1, 1, 2, 3]), "shared_positions": rng.random() < 0.5, "dead_chrom": rng.choice([None, None, "hom", "noreads"]),
+             "gt_noise": rng.choice([0.0, 0.0, 0.1, 0.3]), "chrom_len": rng.choice([2000, 3000]), "n_var": rng.randint(5, 22 if P <= 4 else 12),
              "samples": ["sampleA", "sampleB"][: rng.choice([1, 1, 2])], "depth": rng.choice([4, 8, 12]), "read_len": rng.choice([(150, 500), (300, 1200)]),
              "error_rate": rng.choice([0.0, 0.01, 0.05]), "multiallelic": rng.choice([0.0, 0.2]), "collapse": rng.choice([0.0, 0.5]),
              "coverage_gaps": rng.choice([0, 0, 1, 2]), "paired": rng.choice([0.0, 0.5, 1.0])}
@@ -107,6 +110,9 @@ def run_one(rng, counters, tier):
             tb = traceback.format_exc()
             return [{"mech": "crash:" + tb.strip().splitlines()[-1].split(":")[0], "msg": "run_polyphase raised: " + tb[-1500:]}], False, desc
         counters["runs_ok"] = counters.get("runs_ok", 0) + 1
+        counters["genotype_noise_sites"] = counters.get("genotype_noise_sites", 0) + getattr(sim, "gt_noise_sites", 0)
+        if p["n_chrom"] > 1 and p["dead_chrom"]:
+            counters["runs_with_unphasable_chromosome"] = counters.get("runs_with_unphasable_chromosome", 0) + 1
         calls = list(_CAP["calls"])
         text = open(out).read()
         viol = []
